@@ -438,10 +438,8 @@ struct Engine {
             on_other(P.S, !mv);
             pending.push_back(std::move(P));
             add_constraint(S, mv ? cond : !cond);
-            S.dhash = enumerating ? mix(S.dhash, 0x5bd1e995ULL + enum_value * 2654435761ULL) : mix(S.dhash, mv ? 1 : 0);
-            S.depth++;
             S.decisions.push_back(mv ? '1' : '0');
-            shard_gate(S);
+            if (!enumerating) { S.dhash = mix(S.dhash, mv ? 1 : 0); S.depth++; shard_gate(S); }
         } else if (r == 0) {
             if (opt.verbose) { Frame &f = S.th[S.cur].st.back(); std::string k = f.fi->name.substr(0, 90); if (f.pc > 0) { const DebugLoc &dl = f.fi->insts[f.pc - 1].I->getDebugLoc(); if (dl) k += ":" + std::to_string(dl.getLine()); } unsat_sites[k]++; }
             note_known(S, cond, mv);
@@ -481,6 +479,11 @@ struct Engine {
         }, /*enumerating=*/true, (uint64_t)mv);
         if (!took) throw PathEnd{PathEnd::Error, "concretize: model value infeasible"};
         S.enum_budget = 0;
+        // canonical: every concretisation of a symbolic value contributes the chosen value, whether or not other
+        // values were feasible and in whatever order the model proposed them
+        S.dhash = mix(S.dhash, 0x5bd1e995ULL + (uint64_t)mv * 2654435761ULL);
+        S.depth++;
+        shard_gate(S);
         return mv;
     }
 
